@@ -310,10 +310,16 @@ class ExprHeap:
         if no:
             I.refine_kinds(parent, parent.kinds - frozenset(no))
 
+    MAX_ANCESTORS = 5
+
     def _up(self, I, o: Obj):
         """Materialise the parent of a node whose parent slot is unread."""
         if self.root is o:
             return None
+        self._ups = getattr(self, "_ups", 0) + 1
+        if self._ups > self.MAX_ANCESTORS:
+            # the program walks an unbounded ancestor chain: that needs a loop contract / summary
+            raise OutOfSubset("unbounded walk over ancestors without a loop summary")
         gp = o.ghost.get("above")
         if gp is not None and not gp.open:
             gp = None
